@@ -128,6 +128,21 @@ func failureSwallowed(fn *ssa.Function, s ssa.CallInstruction, e ssa.Value) (ssa
 				continue
 			}
 			switch x := in.(type) {
+			case *ssa.Call:
+				// a helper that hands back the error it was given (`return cleanupAfter(…, err)`): nil exactly when that is
+				if g := x.Common().StaticCallee(); g != nil && g != fn {
+					if pi, ok := errPassThrough(g); ok && pi < len(x.Common().Args) {
+						a := x.Common().Args[pi]
+						switch {
+						case nn[a] != 0:
+							nn = copyWithout(nn, nil)
+							nn[x] = nn[a]
+						case certainlyNonNilError(a):
+							nn = copyWithout(nn, nil)
+							nn[x] = 1
+						}
+					}
+				}
 			case *ssa.Store:
 				// a spilled result or local error variable
 				if al, ok := x.Addr.(*ssa.Alloc); ok && isErrorType(x.Val.Type()) {
@@ -308,6 +323,10 @@ func ruleC04R5(c *Ctx) {
 					continue
 				}
 				succ, _ := failureSwallowed(fn, s, nil)
+				if succ != nil && failureOnlyHelper(c, fn) {
+					c.ok("C04.R5", fn, "the discarded error of "+callee, s.Pos(), "the function only hands back the error it was given, and every call of it is reached through the non-nil edge of that error: clean-up after a failure")
+					continue
+				}
 				if os.Getenv("SLOGCHECK_F6KEYS") != "" && succ != nil {
 					fmt.Printf("R5KEY04 %q: \"\",\n", key)
 				}
@@ -545,4 +564,62 @@ func ruleC02R10(c *Ctx) {
 		}
 	}
 	c.floor("C02.R10", "fallible calls in error-returning functions of the output packages", n, 30)
+}
+
+// errPassThrough: g's error result is, on every return, one and the same error parameter: its index
+func errPassThrough(g *ssa.Function) (int, bool) {
+	if g == nil || g.Blocks == nil {
+		return 0, false
+	}
+	nres := g.Signature.Results().Len()
+	if nres == 0 || !isErrorType(g.Signature.Results().At(nres-1).Type()) {
+		return 0, false
+	}
+	idx := -1
+	for _, rv := range returnedValues(g, nres-1) {
+		p, ok := resolve(rv.Val).(*ssa.Parameter)
+		if !ok || p.Parent() != g {
+			return 0, false
+		}
+		pi := -1
+		for i, q := range g.Params {
+			if q == p {
+				pi = i
+			}
+		}
+		if pi < 0 || (idx >= 0 && idx != pi) {
+			return 0, false
+		}
+		idx = pi
+	}
+	return idx, idx >= 0
+}
+
+// failureOnlyHelper: fn hands back the error it was given and is only ever called on the non-nil edge of that error
+func failureOnlyHelper(c *Ctx, fn *ssa.Function) bool {
+	pi, ok := errPassThrough(fn)
+	if !ok || !c.P.onlyCalledFrom(fn, c.P.allFuncs) {
+		return false
+	}
+	n := 0
+	for _, site := range c.P.staticSites[fn] {
+		if strings.Contains(site.Parent().Synthetic, "wrapper") {
+			continue
+		}
+		n++
+		if pi >= len(site.Common().Args) {
+			return false
+		}
+		a := site.Common().Args[pi]
+		via := false
+		for b, si := range nilEdges(a, false) {
+			if c.onlyViaEdge(site.Parent(), site.(ssa.Instruction), b, si) {
+				via = true
+			}
+		}
+		if !via && !certainlyNonNilError(a) {
+			return false
+		}
+	}
+	return n > 0
 }
